@@ -88,6 +88,9 @@ func (w *World) verifyFunc(con *Contract) (res *FuncResult) {
 	// requires
 	env := in.entryEnv(st)
 	for _, r := range con.Requires {
+		if w.otherProp(r.Prop) {
+			continue
+		}
 		t := in.specBool(r.Expr, env)
 		e.assume("true", t)
 	}
@@ -148,11 +151,16 @@ func (w *World) verifyFunc(con *Contract) (res *FuncResult) {
 				}
 				continue
 			}
+			if w.otherProp(en.Prop) {
+				continue
+			}
 			t := in.specBool(en.Expr, renv)
 			o := &Obligation{Name: fmt.Sprintf("%s#ensures:%d@ret%d", e.fname, i, ri), Kind: "ensures", Pos: rp.pos, Step: rp.step(e), Reach: rp.st.reach, Goal: t, Top: en.Top, Blk: rp.blk, Prop: en.Prop}
 			e.obls = append(e.obls, o)
 		}
-		in.frameCheck(con, rp, ri)
+		if !w.otherProp(con.FrameProp) {
+			in.frameCheck(con, rp, ri)
+		}
 		// canary: false must not be provable at a reachable return (unless the contract declares it dead)
 		if why, dead := con.DeadReturns[ri]; dead {
 			e.note(fmt.Sprintf("%s: return %d is declared unreachable under the contracts: %s", con.Name, ri, why))
@@ -314,6 +322,9 @@ func (in *Inst) frameCheck(con *Contract, rp retPoint, ri int) {
 			continue
 		}
 		if strings.HasPrefix(name, "g:") {
+			if gv := e.W.ghosts[name[2:]]; gv != nil && gv.Scratch {
+				continue
+			}
 			if !ghostMod[name] {
 				e.obls = append(e.obls, &Obligation{Name: fmt.Sprintf("%s#frame:%s@ret%d", e.fname, name, ri), Kind: "frame", Pos: rp.pos, Step: len(e.steps), Reach: rp.st.reach, Goal: sEq(ce, cr), Blk: rp.blk})
 			}
